@@ -48,3 +48,58 @@ def classify_diag(line):
         return f"macro-redefined:{m.group(1)}"
     m = re.search(r"error: (.*)$", line)
     return "error:" + (re.sub(r"'[^']*'", "'..'", m.group(1))[:60] if m else "unknown")
+
+
+# ------------------------------------------------------------------------------------ Solve driver (C19)
+_CVODE_PARSE = r'''        else if (!strcmp(cmd, "cv")) { int f; double fr; sscanf(line, "%*s %d %la", &f, &fr); vt_script().cvode.push_back(VtCvOutcome{f, fr}); }
+        else if (!strcmp(cmd, "ri")) { int f; sscanf(line, "%*s %d", &f); vt_script().reinit.push_back(f); }
+        else if (!strcmp(cmd, "su")) { int f; sscanf(line, "%*s %d", &f); vt_script().setup.push_back(f); }
+        else if (!strcmp(cmd, "userfns")) { int f; sscanf(line, "%*s %d", &f); vt_script().call_user_fns = f != 0; }
+'''
+_CVODE_REPORT = r'''            for (auto &t : vt_script().trace) printf("T %c %d %a %a %a\n", t.what, t.flag, t.tin, t.tout, t.tret);
+            printf("MEM created=%d freed=%d\n", vt_script().created, vt_script().freed);
+'''
+_ODEINT_PARSE = r'''        else if (!strcmp(cmd, "st")) { long n; sscanf(line, "%*s %ld", &n); vt_odeint_script().steps.push_back(n); }
+        else if (!strcmp(cmd, "userfns")) { int f; sscanf(line, "%*s %d", &f); vt_odeint_script().call_user_fns = f != 0; }
+'''
+_ODEINT_REPORT = r'''            printf("OBS calls=%ld\n", vt_odeint_script().observer_calls);
+'''
+
+
+def build_solve_driver(proj, sanitize=True):
+    """Compile the rendered project (unchanged sources) + driver against the mock. Returns path of the binary."""
+    from ..ratecase import data_fields
+
+    tmpl = (Path(__file__).resolve().parent / "driver_solve.cpp.in").read_text()
+    fields = data_fields(proj)
+    body = "".join(f"    data.{k} = {1.0 if v is None else v!r};\n" for k, v in fields.items())
+    if proj.solver == "odeint":
+        rep = {"@@SCRIPT_PARSE@@": _ODEINT_PARSE, "@@SCRIPT_REPORT@@": _ODEINT_REPORT, "@@SCRIPT_RESET@@": "            vt_odeint_script() = VtOdeintScript();\n", "@@EXTRA_INCLUDES@@": ""}
+    else:
+        rep = {"@@SCRIPT_PARSE@@": _CVODE_PARSE, "@@SCRIPT_REPORT@@": _CVODE_REPORT, "@@SCRIPT_RESET@@": "            vt_script() = VtScript();\n", "@@EXTRA_INCLUDES@@": ""}
+    rep["@@DATA_FIELDS@@"] = body
+    rep["@@SCRIPT_DECL@@"] = ""
+    for k, v in rep.items():
+        tmpl = tmpl.replace(k, v)
+    drv = proj.path / "vt_driver.cpp"
+    drv.write_text(tmpl)
+    exe = proj.path / "vt_driver"
+    srcs = sorted(str(p) for p in (proj.path / "src").glob("*.cpp"))
+    flags = ["-std=c++14", "-O0", "-g", "-fno-omit-frame-pointer", "-Wno-everything"]
+    if sanitize:
+        flags += ["-fsanitize=address,undefined", "-fno-sanitize-recover=undefined"]
+    cmd = [CXX, *flags, f"-I{SHIM}", f"-I{proj.path / 'include'}", *srcs, str(drv), "-o", str(exe)]
+    p = subprocess.run(cmd, capture_output=True, text=True)
+    if p.returncode != 0:
+        raise BuildError(p.stderr[-3000:])
+    return exe
+
+
+class BuildError(Exception):
+    pass
+
+
+def run_driver(exe, script_text, cwd, timeout=120):
+    env = dict(os.environ, ASAN_OPTIONS="detect_leaks=0:abort_on_error=0", UBSAN_OPTIONS="print_stacktrace=1")
+    p = subprocess.run([str(exe)], input=script_text, capture_output=True, text=True, cwd=str(cwd), timeout=timeout, env=env)
+    return p.returncode, p.stdout, p.stderr
